@@ -129,6 +129,7 @@ class C07(object):
         kernels.check_against_pyf()
         from ImageD11 import indexing, refinegrains, columnfile, transform, grain  # noqa
         self.mods = (indexing, refinegrains, columnfile, transform, grain)
+        self.default_pars = dict(refinegrains.refinegrains.pars)      # the documented defaults, as imported
 
     def gen(self, rs, ctx):
         rnd = random.Random(rs)
@@ -195,6 +196,7 @@ class C07(object):
             # refine -> save -> assign again: the second assignment must use the grains as they are then
             desc["via_refinepositions"] = rnd.choice([0, 0, 0, 1, 3]) if (ngr and n >= 3) else 0
             desc["after_assign"] = rnd.choice([None, "refineubis", "gof", "both", "scoreonly"])
+            desc["prior_object"] = rnd.random() < 0.25
             if rnd.random() < 0.4:
                 # the geometry was something else when the object assigned before (a parameter file loaded later, a fitted
                 # tilt): the assignment that counts is done with the parameters as they are then
@@ -475,8 +477,21 @@ class C07(object):
         sim.begin_run()
         refine_failed = False
         with contextlib.redirect_stdout(io.StringIO()):
+            prior = desc.get("prior_object")
+            if prior:
+                # another refinegrains object, alive in the same process, loaded a parameter file of another experiment before
+                # this one was made; this one sets only what differs from the documented defaults
+                pf_ = os.path.join(ctx.scratch, "c07_other_%d.par" % os.getpid())
+                with open(pf_, "w") as f_:
+                    f_.write("wedge 7.5\nchi -4.25\nomegasign -1\nwavelength 0.71\ntilt_x 0.11\ntilt_y -0.07\ntilt_z 0.05\n"
+                             "distance 98000.0\ny_center 512.5\nz_center 480.25\ny_size 75.0\nz_size 75.0\n"
+                             "o11 -1\no12 0\no21 0\no22 -1\nt_x 40.0\nt_y -30.0\nt_z 20.0\n")
+                rg0 = refinegrains.refinegrains(tolerance=0.05, OmFloat=False)
+                rg0.loadparameters(pf_)
             rg = refinegrains.refinegrains(tolerance=tol, OmFloat=False)
             for kk, vv in pars.items():
+                if prior and kk in self.default_pars and self.default_pars[kk] == vv:
+                    continue
                 rg.parameterobj.parameters[kk] = vv
             cf = columnfile.colfile_from_dict({"sc": sc.copy(), "fc": fc.copy(), "omega": om.copy(),
                                                "drlv2": np.ones(n), "labels": np.zeros(n) - 1,
@@ -667,6 +682,7 @@ class C07(object):
         meas["route"] = {"assign": 1}
         meas["assignments_after_the_grains_moved"] = 1 if desc.get("assign_history") else 0
         meas["refineubis/gof_after_the_assignment"] = {str(desc.get("after_assign")): 1}
+        meas["another_object_loaded_parameters_before"] = 1 if desc.get("prior_object") else 0
         meas["assignments_after_a_parameter_changed"] = 1 if desc.get("pars_history") else 0
         meas["grain_names_not_0..n-1"] = 1 if desc.get("grain_names") else 0
         meas["assignment_via_refinepositions"] = 1 if (desc.get("via_refinepositions") and not desc.get("assign_history")) else 0
